@@ -123,7 +123,7 @@ func fixFromData(d *FixData) *Fix {
 // coldKinds need neither a shared Dilithium key object nor a private XMSS key.
 var coldKinds = []string{
 	"xverify", "xverifyw", "xaddr", "xlegaddr", "xvalid", "xlegvalid", "xdesc", "xdescnew",
-	"dverify", "dverifymany", "dopen", "daddr", "dvalid", "dextract",
+	"dverify", "dverifymany", "dverifybuf", "dopen", "daddr", "dvalid", "dextract",
 	"m2seed", "m2ext", "seed2m", "ext2m",
 	"dnewseed", "dnewhex", "dnewmnem", "dnewrand", "xnew", "xnewext",
 }
